@@ -8,22 +8,24 @@ from collections import ChainMap
 from sa.astx import NotConst, call_name, const_eval, src, statements
 from sa.selftest import Mutant, Silent
 from sa.source import AnalysisError, class_assigns, methods, mro_lookup
-from sa.props._lib_h import need, self_attr
+from sa.props._lib_h import MiniInterp, ModelError, self_attr
 
 PROPERTY = "C38"
 TELNET = "conch/telnet.py"
 M = "twisted.conch.telnet."
-TECHNIQUE = "escaper rewrite-system extraction + finite evaluation of the extracted receive automaton"
+TECHNIQUE = "finite evaluation of the extracted write methods and receive automaton (own interpreter)"
 EXPLANATION = (
-    "Writer: resolves TelnetTransport.write / writeSequence through the MRO, extracts the ordered replace() pipeline along the "
-    "explicit base-class delegation and evaluates it on every byte and byte pair against the ideal escaper (IAC doubled, LF -> CR LF, "
-    "everything else untouched); writeSequence must route through self.write or apply the identical pipeline per element (F38), and "
-    "requestNegotiation must double IAC inside IAC SB .. IAC SE. Reader: extracts the per-byte state machine of Telnet.dataReceived "
-    "and evaluates it (own whitelisted interpreter, no twisted code is run) on an exhaustive finite corpus of CR-free application "
-    "strings rich in IAC/LF/command bytes, interleaved commands and sub-negotiations, under whole / byte-wise / every two-way "
-    "segmentation, against an RFC 854 reference decoder: delivered bytes, command events, their order and the final state must agree, "
-    "the chunk-local buffer must be flushed at the end of every chunk. Also: every state string assigned has a branch, unknown states "
-    "raise, and only dataReceived writes the parse state. Not decided: behaviour for application data containing CR (excluded by the statement)."
+    "Writer: TelnetTransport.write / writeSequence / requestNegotiation are evaluated as whole methods (MRO resolution, explicit base-class "
+    "delegation, helper functions, conditionals and named temporaries, by a whitelisted interpreter - no twisted code is run) on every single "
+    "byte, byte pairs, the empty string and strings with 0xFF / LF at the first, middle and last position; what reaches transport.write must "
+    "equal the ideal escaper (IAC doubled, LF -> CR LF, everything else untouched); writeSequence must put the same bytes on the wire as write() "
+    "of the concatenation (F38); sub-negotiations must be IAC SB about <IAC-doubled payload> IAC SE. Reader: the per-byte state machine of "
+    "Telnet.dataReceived is evaluated on an exhaustive finite corpus of CR-free application strings rich in IAC/LF/command bytes, interleaved "
+    "commands and sub-negotiations, under whole / byte-wise / every two-way segmentation, against an RFC 854 reference decoder: delivered bytes, "
+    "command events, their order and the final state must agree (an UnboundLocalError / AttributeError of the modelled code is a failed run), the "
+    "chunk-local buffer must be flushed at the end of every chunk; structurally, every local read in a state's branch must be bound earlier in "
+    "the same branch (parser state that outlives a byte lives on the instance). Also: every state string assigned has a branch, unknown states "
+    "raise, only dataReceived writes the parse state. Not decided: behaviour for application data containing CR (excluded by the statement)."
 )
 ASSUMPTIONS = [
     "the receive automaton's only cross-chunk state is self.state / self.command / self.commands (checked: chunk-local buffer is flushed)",
@@ -55,93 +57,58 @@ def telnet_consts(mod):
 
 # ---- writer pipeline -----------------------------------------------------------------------
 
-def _chain(expr, env, mod=None, depth=0):
-    """expr == <name>.replace(a,b).replace(c,d)...  ->  (name, [(a,b),(c,d)]); a call of a one-argument module-level helper whose
-    body is ``return <such a chain on its parameter>`` is inlined.  None when expr has another shape."""
-    pairs = []
-    while True:
-        if isinstance(expr, ast.Call) and isinstance(expr.func, ast.Attribute) and expr.func.attr == "replace" and len(expr.args) == 2 and not expr.keywords:
-            try:
-                pairs.append((const_eval(expr.args[0], env), const_eval(expr.args[1], env)))
-            except NotConst as e:
-                raise AnalysisError(f"C38: replace() with non-constant argument: {src(expr)} ({e})")
-            expr = expr.func.value
-            continue
-        if isinstance(expr, ast.Call) and isinstance(expr.func, ast.Name) and mod is not None and len(expr.args) == 1 and not expr.keywords and depth < 3:
-            h = mod.find(expr.func.id)
-            if isinstance(h, ast.FunctionDef) and len(h.args.args) == 1:
-                body = [st for st in h.body if not (isinstance(st, ast.Expr) and isinstance(st.value, ast.Constant))]
-                if len(body) == 1 and isinstance(body[0], ast.Return) and body[0].value is not None:
-                    inner = _chain(body[0].value, env, mod, depth + 1)
-                    if inner is not None and inner[0] == h.args.args[0].arg:
-                        pairs += list(reversed(inner[1]))
-                        expr = expr.args[0]
-                        continue
-        break
-    if isinstance(expr, ast.Name):
-        return expr.id, list(reversed(pairs))
-    return None
+class _WInterp(MiniInterp):
+    """MiniInterp whose calls are resolved inside the telnet module: transport sinks, explicit base-class delegation,
+    self.<method>() through the MRO of the dynamic class, module-level helper functions."""
+
+    def __init__(self, func, mod, dyn_cls, consts, sinks, used):
+        MiniInterp.__init__(self, func, {}, {}, consts)
+        self.mod, self.dyn_cls, self.sinks, self.used = mod, dyn_cls, sinks, used
+
+    def ev(self, n):
+        if isinstance(n, ast.Call) and not n.keywords:
+            d = call_name(n)
+            if d in ("self.transport.write", "self._write") and len(n.args) == 1:
+                v = self.ev(n.args[0])
+                if not isinstance(v, (bytes, bytearray)):
+                    raise ModelError(f"TypeError: transport.write({type(v).__name__})")
+                self.sinks.append(bytes(v))
+                return None
+            if d == "self.transport.writeSequence" and len(n.args) == 1:
+                self.sinks.append(b"".join(self.ev(n.args[0])))
+                return None
+            if isinstance(n.func, ast.Attribute) and isinstance(n.func.value, ast.Name):
+                recv = n.func.value.id
+                if recv == "self" and isinstance((mro_lookup(self.mod, self.dyn_cls, n.func.attr) or (None, None))[1], ast.FunctionDef):
+                    return eval_method(self.mod, self.dyn_cls, self.dyn_cls, n.func.attr, [self.ev(a) for a in n.args], self.consts, self.sinks, self.used)
+                base = self.mod.find(recv) if recv not in self.loc else None
+                if isinstance(base, ast.ClassDef) and n.args and src(n.args[0]) == "self":
+                    return eval_method(self.mod, base, self.dyn_cls, n.func.attr, [self.ev(a) for a in n.args[1:]], self.consts, self.sinks, self.used)
+            if isinstance(n.func, ast.Name) and n.func.id not in self.loc:
+                h = self.mod.find(n.func.id)
+                if isinstance(h, ast.FunctionDef) and getattr(h, "_parent", None) is self.mod.tree:
+                    self.used.add(h.name)
+                    sub = _WInterp(_noself(h), self.mod, self.dyn_cls, self.consts, self.sinks, self.used)
+                    return sub.call(*[self.ev(a) for a in n.args])
+        return MiniInterp.ev(self, n)
 
 
-def replace_chain_of(expr, param, env, mod=None):
-    r = _chain(expr, env, mod)
-    return r[1] if r is not None and r[0] == param else None
+def _noself(fn):
+    """module-level helper: MiniInterp.call() skips the first parameter (self); give helpers a dummy one"""
+    f2 = ast.parse(ast.unparse(fn)).body[0]
+    f2.args.args.insert(0, ast.arg(arg="__self__"))
+    return f2
 
 
-def write_pipeline(mod, cls, env, depth=0):
-    """Ordered (old,new) pairs applied by <cls>.write to its argument before it reaches self.transport.write,
-    following explicit ``Base.write(self, expr)`` delegation, named temporaries and one-line helper functions.
-    Returns (pairs, [function qualnames])."""
-    if depth > 4:
-        raise AnalysisError("C38: write() delegation too deep")
-    r = mro_lookup(mod, cls, "write")
+def eval_method(mod, lookup_cls, dyn_cls, name, args, consts, sinks, used, depth=0):
+    r = mro_lookup(mod, lookup_cls, name)
     if r is None or not isinstance(r[1], ast.FunctionDef):
-        raise AnalysisError(f"C38: no write() resolvable on {cls.name}")
+        raise AnalysisError(f"C38: no method {name} resolvable on {lookup_cls.name}")
     owner, f = r
-    param = f.args.args[1].arg
-    chains = {param: []}        # local name -> rewrite steps applied so far to the parameter's value
-
-    def resolve(expr):
-        r_ = _chain(expr, env, mod)
-        if r_ is None or r_[0] not in chains:
-            return None
-        return chains[r_[0]] + r_[1]
-    for st in f.body:
-        if isinstance(st, ast.Expr) and isinstance(st.value, ast.Constant):
-            continue
-        if isinstance(st, ast.Assign) and len(st.targets) == 1 and isinstance(st.targets[0], ast.Name):
-            ch = resolve(st.value)
-            if ch is None:
-                raise AnalysisError(f"C38: {owner.name}.write binds {st.targets[0].id} in an unrecognised way: {src(st)[:80]}")
-            chains[st.targets[0].id] = ch
-            continue
-        if isinstance(st, (ast.Expr, ast.Return)) and isinstance(st.value, ast.Call):
-            c = st.value
-            d = call_name(c)
-            if d in ("self.transport.write", "self._write") and len(c.args) == 1:
-                ch = resolve(c.args[0])
-                if ch is None:
-                    raise AnalysisError(f"C38: {owner.name}.write passes an unrecognised expression on: {src(c)}")
-                return ch, [f"{owner.name}.write"]
-            base = None
-            arg = None
-            if isinstance(c.func, ast.Attribute) and c.func.attr == "write" and isinstance(c.func.value, ast.Name) and len(c.args) == 2 \
-                    and src(c.args[0]) == "self":
-                base, arg = mod.find(c.func.value.id), c.args[1]
-            if isinstance(base, ast.ClassDef):
-                ch = resolve(arg)
-                if ch is None:
-                    raise AnalysisError(f"C38: {owner.name}.write delegates in an unrecognised way: {src(c)}")
-                more, names = write_pipeline(mod, base, env, depth + 1)
-                return ch + more, [f"{owner.name}.write"] + names
-        raise AnalysisError(f"C38: statement of {owner.name}.write not recognised: {src(st)[:80]}")
-    raise AnalysisError(f"C38: {owner.name}.write never reaches the transport")
-
-
-def apply_pairs(pairs, data: bytes) -> bytes:
-    for old, new in pairs:
-        data = data.replace(old, new)
-    return data
+    if len(used) > 40:
+        raise AnalysisError("C38: method evaluation too deep")
+    used.add(f"{owner.name}.{name}")
+    return _WInterp(f, mod, dyn_cls, consts, sinks, used).call(*args)
 
 
 def ideal(data: bytes) -> bytes:
@@ -174,6 +141,7 @@ class Reader:
         self.func = _SelfToName().visit(ast.parse(ast.unparse(func)).body[0])
         self.consts = dict(consts)
         self.param = func.args.args[1].arg
+        self.local_names = {x.id for x in ast.walk(func) if isinstance(x, ast.Name) and isinstance(x.ctx, ast.Store)}
         self.initial_state = initial_state
         self.reset()
 
@@ -193,6 +161,8 @@ class Reader:
         except NotConst as e:
             if str(e).startswith("self__"):
                 raise ModelRaise(f"AttributeError: {str(e)[6:]}")     # attribute deleted / never set at this point
+            if str(e) in self.local_names:
+                raise ModelRaise(f"UnboundLocalError: {e}")          # a local that was bound in an earlier dataReceived() call only
             raise AnalysisError(f"C38: expression of dataReceived not evaluable: {src(node)[:80]} ({e})")
 
     def _set(self, env, name, value):
@@ -403,95 +373,71 @@ def check(ctx):
 
     alpha = [IACB, LFB, b"a", NULB, C.get("SE", b"\xf0"), C.get("WILL", b"\xfb")]
     with ctx.section('writer/pipeline'):
-        pairs, chain = write_pipeline(mod, tt, C)
-        for nm in chain:
-            ctx.functions.add(f"{TELNET}:{nm}")
+        # the whole write() method (MRO, explicit base delegation, helpers, conditionals) is evaluated on a finite set of inputs
         qw = M + "TelnetTransport.write"
-        ctx.note(f"write pipeline of TelnetTransport via {' -> '.join(chain)}: {pairs!r}")
-        singles = [bytes((v,)) for v in range(256) if v != 13]
-        bad_iac = [b for b in [IACB, IACB * 2, b"a" + IACB, IACB + LFB, LFB + IACB] if apply_pairs(pairs, b).count(IACB) != 2 * b.count(IACB)]
-        ctx.check(not bad_iac, "writer/iac-doubled", qw + " | IAC",
-                  f"application byte 0xFF is not sent as IAC IAC: write({bad_iac[:1]!r}) puts {apply_pairs(pairs, bad_iac[0]) if bad_iac else b''!r} on the wire "
-                  "and the peer reads a telnet command")
-        bad_lf = [b for b in [LFB, LFB * 2, b"a" + LFB, LFB + b"a"] if apply_pairs(pairs, b).replace(IACB * 2, IACB) != b.replace(LFB, CRB + LFB)]
-        ctx.check(not bad_lf, "writer/lf-to-crlf", qw + " | LF",
-                  f"LF is not sent as CR LF: write({bad_lf[:1]!r}) -> {apply_pairs(pairs, bad_lf[0]) if bad_lf else b''!r}")
-        others = [b for b in singles if b not in (IACB, LFB) and apply_pairs(pairs, b) != b]
-        ctx.check(not others, "writer/other-bytes-untouched", qw + " | other bytes",
-                  f"write() rewrites bytes that need no escaping: {others[:3]!r}")
-        mism = [a + b for a in alpha for b in alpha if apply_pairs(pairs, a + b) != ideal(a + b)]
-        ctx.check(not mism, "writer/matches-ideal-escaper", qw + " | pairs", f"write({mism[:1]!r}) differs from IAC-doubling + LF->CRLF: "
-                  f"{apply_pairs(pairs, mism[0]) if mism else b''!r}")
+        used = set()
 
+        def wire(data):
+            sinks = []
+            eval_method(mod, tt, tt, "write", [data], C, sinks, used)
+            return b"".join(sinks)
+        singles = [bytes((v,)) for v in range(256) if v != 13]
+        probes = [b""] + singles + [x + y for x in alpha for y in alpha]
+        for x in (IACB, LFB):
+            probes += [x + b"ab", b"a" + x + b"b", b"ab" + x, x + x + b"a", b"a" + x + x, x + b"a" + x, x * 3]
+        probes += [IACB + LFB + b"a", LFB + IACB, b"a" + LFB + IACB + b"b"]
+        out = {d: wire(d) for d in probes}
+        for nm in sorted(used):
+            ctx.functions.add(f"{TELNET}:{nm}")
+        ctx.note(f"write() evaluated on {len(probes)} inputs through {sorted(used)}")
+        bad_iac = [d for d in probes if IACB in d and out[d].count(IACB) != 2 * d.count(IACB)]
+        ctx.check(not bad_iac, "writer/iac-doubled", qw + " | IAC",
+                  f"application byte 0xFF is not always sent as IAC IAC: write({bad_iac[0] if bad_iac else b''!r}) puts {out[bad_iac[0]] if bad_iac else b''!r} on the wire "
+                  "and the peer reads a telnet command")
+        bad_lf = [d for d in probes if LFB in d and out[d].replace(IACB * 2, IACB) != d.replace(LFB, CRB + LFB)]
+        ctx.check(not bad_lf, "writer/lf-to-crlf", qw + " | LF",
+                  f"LF is not always sent as CR LF: write({bad_lf[0] if bad_lf else b''!r}) -> {out[bad_lf[0]] if bad_lf else b''!r}")
+        others = [d for d in singles if d not in (IACB, LFB) and out[d] != d]
+        ctx.check(not others, "writer/other-bytes-untouched", qw + " | other bytes", f"write() rewrites bytes that need no escaping: {others[:3]!r}")
+        mism = [d for d in probes if out[d] != ideal(d)]
+        ctx.check(not mism, "writer/matches-ideal-escaper", qw + " | all probes",
+                  f"write({mism[0] if mism else b''!r}) -> {out[mism[0]] if mism else b''!r} differs from IAC-doubling + LF->CRLF ({ideal(mism[0]) if mism else b''!r})",
+                  detail=f"{len(probes)} inputs")
+        ctx.floor("writer/matches-ideal-escaper", len(probes), 300, "probe inputs")
     with ctx.section('writer/writeSequence'):
         r = mro_lookup(mod, tt, "writeSequence")
         ctx.need(r is not None and isinstance(r[1], ast.FunctionDef), "writeSequence resolvable on TelnetTransport")
-        owner, ws = r
+        owner = r[0]
         ctx.functions.add(f"{TELNET}:{owner.name}.writeSequence")
-        qs = M + "TelnetTransport.writeSequence"
-        seqp = ws.args.args[1].arg
-        via_write = []
-        raw = []
-        for c in ast.walk(ws):
-            if not isinstance(c, ast.Call):
-                continue
-            d = call_name(c)
-            if d == "self.write" and len(c.args) == 1:
-                a = c.args[0]
-                joined = isinstance(a, ast.Call) and isinstance(a.func, ast.Attribute) and a.func.attr == "join" and len(a.args) == 1 \
-                    and src(a.args[0]) == seqp
-                if joined:
-                    try:
-                        sep = const_eval(a.func.value, C)
-                    except NotConst:
-                        sep = None
-                    ctx.check(sep == b"", "writeSequence/joins-without-separator", ctx.construct(qs, c),
-                              f"the elements are joined with {sep!r}: bytes that were never written reach the peer")
-                    via_write.append(c)
-                elif isinstance(a, ast.Name):
-                    loop = [n for n in ast.walk(ws) if isinstance(n, ast.For) and isinstance(n.target, ast.Name) and n.target.id == a.id and src(n.iter) == seqp]
-                    if loop:
-                        via_write.append(c)
-            elif d in ("self.transport.writeSequence", "self.transport.write", "self._write"):
-                raw.append(c)
-        ok_raw = True
-        for c in raw:
-            a = c.args[0] if c.args else None
-            per_elem = None
-            if isinstance(a, (ast.ListComp, ast.GeneratorExp)) and len(a.generators) == 1 and isinstance(a.generators[0].target, ast.Name) \
-                    and src(a.generators[0].iter) == seqp and not a.generators[0].ifs:
-                per_elem = replace_chain_of(a.elt, a.generators[0].target.id, C)
-            good = per_elem is not None and all(apply_pairs(per_elem, x + y) == ideal(x + y) for x in alpha for y in alpha)
-            ok_raw = ok_raw and good
-            ctx.check(good, "writeSequence/same-escaping-as-write", ctx.construct(qs + f" (resolved: {owner.name}.writeSequence)", c),
-                      "writeSequence hands the elements to the transport without the IAC doubling / LF->CRLF that write() applies: "
-                      "writeSequence([b'a\\xffb\\n']) puts a raw IAC and a bare LF on the wire")
-        ctx.check(bool(via_write) or (bool(raw) and ok_raw), "writeSequence/same-escaping-as-write", qs,
-                  f"the writeSequence TelnetTransport resolves to ({owner.name}.writeSequence) neither routes through self.write nor escapes per element")
-
+        qs = M + f"TelnetTransport.writeSequence (resolved: {owner.name}.writeSequence)"
+        seqs = [[b"a\xffb\n"], [IACB, LFB], [], [b"", b"x"], [b"ab", b"cd"], [IACB], [b"a", IACB + IACB, LFB + b"z"]]
+        bad = None
+        for sq in seqs:
+            sinks = []
+            eval_method(mod, tt, tt, "writeSequence", [list(sq)], C, sinks, set())
+            got = b"".join(sinks)
+            if got != ideal(b"".join(sq)) and bad is None:
+                bad = (sq, got)
+        ctx.check(bad is None, "writeSequence/same-escaping-as-write", qs,
+                  f"writeSequence({bad[0] if bad else []!r}) puts {bad[1] if bad else b''!r} on the wire; write() of the concatenation would send "
+                  f"{ideal(b''.join(bad[0])) if bad else b''!r} (IAC doubled, LF -> CR LF): the sequence bypasses the escaping or gains/loses bytes")
     with ctx.section('writer/requestNegotiation'):
-        rn = ctx.func(TELNET, "Telnet.requestNegotiation")
         qn = M + "Telnet.requestNegotiation"
-        dp = rn.args.args[2].arg
-        ap = rn.args.args[1].arg
-        npairs = []
-        wcalls = []
-        for st in rn.body:
-            if isinstance(st, ast.Assign) and len(st.targets) == 1 and isinstance(st.targets[0], ast.Name) and st.targets[0].id == dp:
-                ch = replace_chain_of(st.value, dp, C)
-                need(ctx, ch is not None, "requestNegotiation: data = data.replace(...)")
-                npairs += ch
-            elif isinstance(st, ast.Expr) and isinstance(st.value, ast.Call) and call_name(st.value) in ("self._write", "self.transport.write"):
-                wcalls.append(st.value)
-        bad = [x for x in (IACB, IACB * 2, b"a" + IACB + C["SE"], C["SE"], b"a") if apply_pairs(npairs, x) != x.replace(IACB, IACB * 2)]
-        ctx.check(not bad, "subnegotiation/iac-doubled", qn, f"sub-negotiation payload {bad[:1]!r} is not IAC-escaped: an 0xFF 0xF0 inside it ends the "
-                  "sub-negotiation early and the rest is read as application data")
-        ctx.check(len(wcalls) == 1 and src(wcalls[0].args[0]) == f"IAC + SB + {ap} + {dp} + IAC + SE", "subnegotiation/framing", qn,
-                  "the sub-negotiation is not framed as IAC SB <about> <data> IAC SE")
-        w = [i for i, st in enumerate(rn.body) if isinstance(st, ast.Expr) and isinstance(st.value, ast.Call) and st.value in wcalls]
-        e = [i for i, st in enumerate(rn.body) if isinstance(st, ast.Assign) and any(isinstance(t, ast.Name) and t.id == dp for t in st.targets)]
-        ctx.check(bool(w) and bool(e) and max(e) < min(w), "subnegotiation/iac-doubled", qn + " | order", "payload is escaped after it was written")
-
+        ctx.func(TELNET, "Telnet.requestNegotiation")
+        badn = None
+        for about in (b"\x1f", b"\x22"):
+            for payload in (b"", b"a", IACB, IACB * 2, b"a" + IACB + C["SE"], C["SE"], IACB + b"a", b"ab" + IACB):
+                sinks = []
+                eval_method(mod, tt, tt, "requestNegotiation", [about, payload], C, sinks, set())
+                got = b"".join(sinks)
+                want = IACB + C["SB"] + about + payload.replace(IACB, IACB * 2) + IACB + C["SE"]
+                if got != want and badn is None:
+                    badn = (payload, got, want)
+        framed = badn is None or (badn[1].startswith(IACB + C["SB"]) and badn[1].endswith(IACB + C["SE"]))
+        ctx.check(badn is None or not framed, "subnegotiation/iac-doubled", qn,
+                  f"sub-negotiation payload {badn[0] if badn else b''!r} is sent as {badn[1] if badn else b''!r}, expected {badn[2] if badn else b''!r}: an unescaped 0xFF 0xF0 "
+                  "inside it ends the sub-negotiation early and the rest is read as application data")
+        ctx.check(framed, "subnegotiation/framing", qn, f"the sub-negotiation is not framed as IAC SB <about> <data> IAC SE: {badn[1] if badn else b''!r}")
     with ctx.section('reader/anchors'):
         dr = ctx.func(TELNET, "Telnet.dataReceived")
         qd = M + "Telnet.dataReceived"
@@ -524,6 +470,37 @@ def check(ctx):
             ctx.check(s in handled, "reader/state-has-branch", f"{qd} | state {s!r}",
                       f"state {s!r} (assigned in {assigned[s]}) has no branch in dataReceived: the next byte raises and the connection's parser is stuck")
 
+    with ctx.section('reader/state-on-instance'):
+        loops_ = [st for st in dr.body if isinstance(st, ast.For)]
+        ctx.need(loops_, "dataReceived: for b in iterbytes(data)")
+        loop_ = loops_[0]
+        stored_in_loop = {x.id for x in ast.walk(loop_) if isinstance(x, ast.Name) and isinstance(x.ctx, ast.Store)}
+        loop_vars = {x.id for x in ast.walk(loop_.target) if isinstance(x, ast.Name)}
+        chain_ = [st for st in loop_.body if isinstance(st, ast.If)]
+        ctx.need(chain_, "dataReceived: if self.state == ... chain")
+        branches = []
+        node_ = chain_[0]
+        while True:
+            t_ = node_.test
+            label = t_.comparators[0].value if isinstance(t_, ast.Compare) and self_attr(t_.left, "state") and isinstance(t_.comparators[0], ast.Constant) else src(t_)[:30]
+            branches.append((label, node_.body))
+            if len(node_.orelse) == 1 and isinstance(node_.orelse[0], ast.If):
+                node_ = node_.orelse[0]
+            else:
+                break
+        n_reads = 0
+        for label, body_ in branches:
+            wrap = ast.Module(body=list(body_), type_ignores=[])
+            stores = sorted((x.lineno, x.col_offset, x.id) for x in ast.walk(wrap) if isinstance(x, ast.Name) and isinstance(x.ctx, (ast.Store, ast.Del)))
+            for x in ast.walk(wrap):
+                if isinstance(x, ast.Name) and isinstance(x.ctx, ast.Load) and x.id in stored_in_loop and x.id not in loop_vars:
+                    n_reads += 1
+                    earlier = any(nm == x.id and (ln, col) < (x.lineno, x.col_offset) for ln, col, nm in stores)
+                    ctx.check(earlier, "reader/state-on-instance", f"{qd} | state {label!r} reads local {x.id}",
+                              f"in state {label!r} the local `{x.id}` is read but it is bound only while handling an earlier byte (another state): when the chunk ends "
+                              "between the two bytes the next dataReceived() call starts with fresh locals -> UnboundLocalError / the pending command is lost. "
+                              "State that outlives one byte must live on the instance")
+        ctx.floor("reader/state-on-instance", n_reads, 2, "reads of per-iteration locals")
     with ctx.section('reader/automaton'):
         ctx.need(_ok_rd, 'anchors of reader (section skipped)')
         rd = Reader(dr, C, default.value)
@@ -658,6 +635,18 @@ def find_divergence(rd, C, wire, chunks):
 
 T = TELNET
 MUTANTS = [
+    Mutant("iac-escape-skipped-when-first-byte", T, "        ProtocolTransportMixin.write(self, data.replace(b\"\\xff\", b\"\\xff\\xff\"))",
+           "        if IAC in data[1:]:\n            data = data.replace(IAC, IAC * 2)\n        ProtocolTransportMixin.write(self, data)", expect_rule="writer/iac-doubled"),
+    Mutant("lf-translation-only-for-multibyte-writes", T, "        self.transport.write(data.replace(b\"\\n\", b\"\\r\\n\"))",
+           "        if len(data) > 1:\n            data = data.replace(b\"\\n\", b\"\\r\\n\")\n        self.transport.write(data)", expect_rule="writer/lf-to-crlf"),
+    Mutant("subnegotiation-buffer-kept-in-a-local", T, "                    self.state = \"subnegotiation\"\n                    self.commands = []\n", "                    self.state = \"subnegotiation\"\n                    commands = []\n",
+           more=[(T, "                if b == IAC:\n                    self.state = \"subnegotiation-escaped\"\n                else:\n                    self.commands.append(b)\n",
+                  "                if b == IAC:\n                    self.state = \"subnegotiation-escaped\"\n                else:\n                    commands.append(b)\n"),
+                 (T, "                    commands = self.commands\n                    del self.commands\n", ""),
+                 (T, "                    self.state = \"subnegotiation\"\n                    self.commands.append(b)\n", "                    self.state = \"subnegotiation\"\n                    commands.append(b)\n")],
+           expect_rule="reader/state-on-instance"),
+    Mutant("pending-command-byte-in-a-local", T, "                    self.state = \"command\"\n                    self.command = b\n", "                    self.state = \"command\"\n                    pending = b\n",
+           more=[(T, "                command = self.command\n                del self.command\n", "                command = pending\n")], expect_rule="reader/round-trip"),
     Mutant("helper-escapes-wrong-byte", T, "        ProtocolTransportMixin.write(self, data.replace(b\"\\xff\", b\"\\xff\\xff\"))",
            "        escaped = _doubleIAC(data)\n        ProtocolTransportMixin.write(self, escaped)",
            more=[(T, "class ProtocolTransportMixin:\n", "def _doubleIAC(data):\n    return data.replace(DONT, DONT * 2)\n\n\nclass ProtocolTransportMixin:\n")], expect_rule="writer/iac-doubled"),
@@ -686,6 +675,8 @@ MUTANTS = [
            "            elif self.state == \"command\":\n                command = self.command\n", expect_rule="reader/round-trip"),
 ]
 SILENT = [
+    Silent("iac-escape-only-when-present", T, "        ProtocolTransportMixin.write(self, data.replace(b\"\\xff\", b\"\\xff\\xff\"))",
+           "        if data.find(IAC) >= 0:\n            data = data.replace(IAC, IAC * 2)\n        ProtocolTransportMixin.write(self, data)"),
     Silent("write-named-temporary-and-helper", T, "        ProtocolTransportMixin.write(self, data.replace(b\"\\xff\", b\"\\xff\\xff\"))",
            "        escaped = _doubleIAC(data)\n        ProtocolTransportMixin.write(self, escaped)",
            more=[(T, "class ProtocolTransportMixin:\n", "def _doubleIAC(data):\n    return data.replace(IAC, IAC * 2)\n\n\nclass ProtocolTransportMixin:\n")]),
